@@ -286,6 +286,9 @@ func describeD(v ssa.Value, depth int) string {
 	case *ssa.UnOp:
 		switch x.Op {
 		case token.MUL:
+			if d := singleDef(x); d != nil {
+				return describeD(d, depth+1)
+			}
 			if f, base := fieldAddrOf(x.X); f != nil {
 				// field of a (pointer to a) named struct: identified by
 				// Type.field, whatever expression yields the struct
@@ -445,4 +448,127 @@ func referrers(v ssa.Value) []ssa.Instruction {
 		return nil
 	}
 	return *r
+}
+
+// ---------- single-definition cells ----------
+
+var cellCache = map[ssa.Value]ssa.Value{}
+
+// cellOf maps a free variable to the cell (Alloc) it is bound to in the
+// enclosing function, when there is exactly one binding site.
+func cellOf(v ssa.Value) ssa.Value {
+	for depth := 0; depth < 4; depth++ {
+		fv, ok := v.(*ssa.FreeVar)
+		if !ok {
+			return v
+		}
+		fn := fv.Parent()
+		idx := -1
+		for i, x := range fn.FreeVars {
+			if x == fv {
+				idx = i
+			}
+		}
+		if fn.Parent() == nil || idx < 0 {
+			return v
+		}
+		var bound ssa.Value
+		n := 0
+		allInstrs(fn.Parent(), func(in ssa.Instruction) {
+			if mc, ok := in.(*ssa.MakeClosure); ok && mc.Fn == fn {
+				n++
+				bound = mc.Bindings[idx]
+			}
+		})
+		if n != 1 {
+			return v
+		}
+		v = bound
+	}
+	return v
+}
+
+// storesToCell collects every store to the cell, in the owning function and
+// in closures that capture it.
+func storesToCell(cell ssa.Value) []*ssa.Store {
+	var out []*ssa.Store
+	var visit func(v ssa.Value, depth int)
+	visit = func(v ssa.Value, depth int) {
+		if depth > 4 {
+			return
+		}
+		for _, r := range referrers(v) {
+			switch x := r.(type) {
+			case *ssa.Store:
+				if x.Addr == v {
+					out = append(out, x)
+				}
+			case *ssa.MakeClosure:
+				for i, b := range x.Bindings {
+					if b == v {
+						if fn, ok := x.Fn.(*ssa.Function); ok && i < len(fn.FreeVars) {
+							visit(fn.FreeVars[i], depth+1)
+						}
+					}
+				}
+			}
+		}
+	}
+	visit(cell, 0)
+	return out
+}
+
+// singleDef: if v is a load of a local cell (Alloc or captured variable) with
+// exactly one store anywhere, returns the stored value; else nil.
+func singleDef(v ssa.Value) ssa.Value {
+	u, ok := v.(*ssa.UnOp)
+	if !ok || u.Op != token.MUL {
+		return nil
+	}
+	switch u.X.(type) {
+	case *ssa.Alloc, *ssa.FreeVar:
+	default:
+		return nil
+	}
+	if r, ok := cellCache[v]; ok {
+		return r
+	}
+	cellCache[v] = nil
+	cell := cellOf(u.X)
+	if _, ok := cell.(*ssa.Alloc); !ok {
+		return nil
+	}
+	st := storesToCell(cell)
+	if len(st) != 1 {
+		return nil
+	}
+	cellCache[v] = st[0].Val
+	return st[0].Val
+}
+
+// fieldChain returns the chain of field descriptors leading to v, outermost
+// first, e.g. ["Conn.text", "textproto.Conn.Reader", "textproto.Reader.R"], and
+// the root value.
+func fieldChain(v ssa.Value) ([]string, ssa.Value) {
+	var chain []string
+	for depth := 0; depth < 8; depth++ {
+		v = stripConv(v)
+		if d := singleDef(v); d != nil {
+			v = d
+			continue
+		}
+		if f, base := loadedField(v); f != nil {
+			chain = append([]string{fieldDesc(f, base)}, chain...)
+			v = base
+			continue
+		}
+		if fa, ok := v.(*ssa.FieldAddr); ok { // embedded struct by address
+			f, base := fieldAddrOf(fa)
+			chain = append([]string{fieldDesc(f, base)}, chain...)
+			v = base
+			continue
+		}
+		break
+	}
+	return chain, v
 }
